@@ -24,7 +24,7 @@ func init() {
 // ---- C11: stored documents read back identical ----
 
 func streamC11(c *Ctx) {
-	c.Rule = "documents over the full value grammar (int64/uint64 extremes, ±0/±Inf/subnormal floats, empty strings/maps/slices, non-UTF-8 strings, times 1678-2262 with offsets UTC/+01:00/-07:30/+05:45:30 and nanoseconds at every nesting position, depth<=3 quick / 5 thorough) written by Insert/Save/Update and read back by FindById/FindAll before and after reopen (bbolt, badger-disk) and through document.Encode/Decode directly; compared with Go type tags against the written value and the Lean model; " +
+	c.Rule = "documents over the full value grammar (int64/uint64 extremes, ±0/±Inf/subnormal floats, empty strings/maps/slices, non-UTF-8 strings, times 1678-2262 with offsets UTC/+01:00/-07:30/+05:45:30/-04:56:02/-01:00:30/-00:00:30 (and a systematic table of 25 offsets x 4 instants through Encode/Decode) and nanoseconds at every nesting position, depth<=3 quick / 5 thorough) written by Insert/Save/Update and read back by FindById/FindAll before and after reopen (bbolt, badger-disk) and through document.Encode/Decode directly; compared with Go type tags against the written value and the Lean model; " +
 		"non-trivial = distinct documents containing a time or an integer extreme inside an array or object"
 	dr := StartDriver(c.DriverBin)
 	defer dr.Close()
@@ -32,6 +32,30 @@ func streamC11(c *Ctx) {
 	depth := 3
 	if !c.Quick() {
 		depth = 5
+	}
+	// zone offsets, systematically: every offset Go's binary time format can carry comes back as written - in
+	// particular the negative ones with a seconds component, which time.MarshalBinary itself gets wrong (F34);
+	// -60 s (the format's UTC marker) is the one offset Encode refuses, with an error
+	for _, off := range []int{-1, -29, -30, -59, -61, -90, -119, -120, -121, -3599, -3601, -3630, -17762, -43199, 1, 59, 61, 3630, 20730, 50399, -1966079, 1966079, 0, 60, -3600} {
+		for _, ns := range []int64{0, -1, 1577923200123456789, -3786825600000000000} {
+			t := mkTime(ns, off)
+			m := map[string]interface{}{"_id": fixedId(1), "t": t, "l": []interface{}{map[string]interface{}{"t": t}}}
+			c.Evals++
+			enc, err := d.Encode(d.NewDocumentOf(m))
+			if err != nil {
+				c.Violation(&Replay{Stream: "codec", Case: []interface{}{J{"k": "codec", "doc": encDoc(m)}}, Actual: []string{err.Error()}, Note: "document.Encode refuses a time with a representable zone offset"})
+				return
+			}
+			dec, derr := d.Decode(enc)
+			if derr != nil || canonDoc(dec.AsMap()) != canonDoc(m) {
+				c.Violation(&Replay{Stream: "codec", Case: []interface{}{J{"k": "codec", "doc": encDoc(m)}}, Expected: []string{canonDoc(m)}, Actual: []string{fmt.Sprint(derr), canonDoc(dec.AsMap())}, Note: "a time does not come back with the zone offset it was written with"})
+				return
+			}
+			c.Count("zone-offset-cell")
+		}
+	}
+	if _, err := d.Encode(d.NewDocumentOf(map[string]interface{}{"_id": fixedId(1), "t": mkTime(0, -60)})); err == nil {
+		c.Count("zone-offset:-60-accepted") // (would need a decode check; today it is refused)
 	}
 	for _, be := range []string{"bbolt", "badger-disk", "badger-mem"} {
 		im := NewImpl(be, c.Scratch)
@@ -52,6 +76,11 @@ func streamC11(c *Ctx) {
 				// direct codec round trip
 				c.Evals++
 				enc, err := d.Encode(d.NewDocumentOf(m))
+				if err != nil {
+					c.Violation(&Replay{Stream: "codec", Case: []interface{}{J{"k": "codec", "doc": encDoc(m)}}, Actual: []string{err.Error()}, Note: "document.Encode refuses a document of canonical values"})
+					im.Destroy()
+					return
+				}
 				if err == nil {
 					dec, derr := d.Decode(enc)
 					if derr != nil || canonDoc(dec.AsMap()) != canonDoc(m) {
